@@ -3131,12 +3131,14 @@ class Trimesh(Geometry3D):
         # make sure cache ID is set initially
         copied._cache.verify()
 
-        if include_cache:
+        if include_cache and self._cache.id_current == copied._cache.id_current:
             # shallow copy cached items into the new cache
             # since the data didn't change here when the
             # data in the new mesh is changed these items
             # will be dumped in the new mesh but preserved
-            # in the original mesh
+            # in the original mesh: if our data was edited
+            # since the cache was last verified the cached
+            # values are for the old data and are not copied
             copied._cache.cache.update(self._cache.cache)
 
         return copied
